@@ -710,9 +710,10 @@ func (s *AbsfsNFS) RenameWithContext(ctx context.Context, oldDir *NFSNode, oldNa
 	if err != nil {
 		return fmt.Errorf("rename: failed to rename %s to %s: %w", oldPath, newPath, err)
 	}
-	// Invalidate caches and negative cache entries
-	s.attrCache.Invalidate(oldPath)
-	s.attrCache.Invalidate(newPath)
+	// Invalidate caches and negative cache entries. A renamed directory takes
+	// its whole subtree along, so entries below both paths are stale too.
+	s.attrCache.InvalidateSubtree(oldPath)
+	s.attrCache.InvalidateSubtree(newPath)
 	s.attrCache.Invalidate(oldDir.path)
 	s.attrCache.Invalidate(newDir.path)
 	// Invalidate negative cache entries in both directories
@@ -721,6 +722,8 @@ func (s *AbsfsNFS) RenameWithContext(ctx context.Context, oldDir *NFSNode, oldNa
 	if s.dirCache != nil {
 		s.dirCache.Invalidate(oldDir.path)
 		s.dirCache.Invalidate(newDir.path)
+		s.dirCache.InvalidateSubtree(oldPath)
+		s.dirCache.InvalidateSubtree(newPath)
 	}
 	return nil
 }
